@@ -355,7 +355,7 @@ def replay(which):
 def run(ctx):
     prog, info = lc.load()
     ctx.bounds.update({'period': 'fully symbolic', 'interval_iterations': 'loop unrolled up to 4 iterations; every iteration has the same shape (status check, one tick, one send)',
-                       'outside': 'accuracy of tokio timers and the delivery delay at the receiver; ActorRef / DerivedActorRef wrappers are thin delegations (DerivedActorRef copies: thorough tier)'})
+                       'outside': 'accuracy of tokio timers and the delivery delay at the receiver; the converter closures of DerivedActorRef (opaque)'})
     ctx.assumptions += ['virtual clock contract: sleep(d) completes no earlier than d after its first poll (a zero sleep may complete at once); interval(p) ticks immediately, then once per period',
                         'the target is opaque: its status is arbitrary at every read, a send succeeds or fails arbitrarily',
                         'JoinHandle::abort drops the task at a suspension point']
@@ -363,9 +363,12 @@ def run(ctx):
     check_one_shot(ctx, prog, 'exit_after', 'STOP')
     check_one_shot(ctx, prog, 'kill_after', 'KILL')
     check_interval(ctx, prog)
-    if ctx.tier != 'quick':
-        check_one_shot(ctx, prog, 'DerivedActorRef::<TMessage>::send_after', 'SEND')
-        check_interval(ctx, prog, 'DerivedActorRef::<TMessage>::send_interval')
+    # DerivedActorRef carries its own copies of the two senders (not aliases): same claims, both tiers
+    check_one_shot(ctx, prog, 'DerivedActorRef::<TMessage>::send_after', 'SEND')
+    check_interval(ctx, prog, 'DerivedActorRef::<TMessage>::send_interval')
+    # the alias methods start the timer they are named after, for the actor they were called on
+    import C12_wrappers
+    C12_wrappers.check(ctx, prog)
     # "a timer whose target is no longer running delivers nothing": the send a timer performs is refused by a target that left the running states
     import C12_target
     import C12_target_replay
